@@ -15,7 +15,7 @@ use tokio::sync::watch;
 use tokio::time::Instant;
 use tracing::{info, warn};
 
-use crate::delta::{Delta, DeltaSerializer, NodeDelta};
+use crate::delta::{Delta, DeltaSerializer, MIN_DELTA_MTU, NodeDelta};
 use crate::digest::{Digest, NodeDigest};
 use crate::listener::Listeners;
 use crate::types::{DeletionStatus, DeletionStatusMutation};
@@ -639,6 +639,10 @@ impl ClusterState {
         mtu: usize,
         scheduled_for_deletion: &HashSet<&ChitchatId>,
     ) -> Delta {
+        if mtu < MIN_DELTA_MTU {
+            // Our own digest fills the datagram (almost) entirely: there is no room for a delta.
+            return Delta::default();
+        }
         let mut stale_nodes = SortedStaleNodes::default();
 
         for (chitchat_id, node_state) in &self.node_states {
